@@ -23,6 +23,18 @@ def main():
         import check_tree
 
         return check_tree.run(a.prop, a.tier, replay=a.replay)
+    if a.prop == "C18":
+        import check_c18
+
+        return check_c18.run(a.prop, a.tier, replay=a.replay)
+    if a.prop == "C15":
+        import check_c15
+
+        return check_c15.run(a.prop, a.tier, replay=a.replay)
+    if a.prop == "C14":
+        import check_c14
+
+        return check_c14.run(a.prop, a.tier, replay=a.replay)
     if a.prop == "C11":
         import check_c11
 
